@@ -12,8 +12,10 @@ queries: events | events_skip <n> | fixed | translation | value <LLLLCCCC> <key:
 
 Canonical text: a slice is `<byte offset>:<byte length>=<words, 4 hex digits each | ->`, a Rust
 `String` is the hex of its UTF-8 bytes (`-` when empty).  With `tree=` the driver also runs the
-specification: `enc=1` iff the reference writer produces exactly the block, `spec=` the answer
-derived from the abstract content, `hyp=1` iff the tree meets the theorem's hypotheses.
+specification: `enc=1` iff the reference writer produces exactly the block, `lay=1` iff the block is
+a documented layout of the tree (`Spec.VInfo.isBlockB`; `tree=L/…` marks blocks of a writer that makes
+the layout choices at random), `spec=` the answer derived from the abstract content, `hyp=1` iff the
+block and the tree meet the hypotheses of the query's theorem (Thm/C13Queries.lean).
 -/
 namespace Pelite.Driver.Ver
 open Pelite.Proto Pelite.Version
@@ -79,7 +81,7 @@ def parseLang (s : String) : Language :=
   let n := hexNum s
   ⟨n / 65536 % 65536, n % 65536⟩
 
-/-! ### abstract tree:  <tight 0|1>/<root key>/<root value>/<block>|<block>…
+/-! ### abstract tree:  <tight 0|1, or L = layout choices made by the generator>/<root key>/<root value>/<block>|<block>…
 block = S<table>;<table>… | R<var>;<var>… ; table = <lang>:<str>,<str>… ; str, var = <key>=<value> -/
 
 def splitNE (s : String) (sep : String) : List String := (s.splitOn sep).filter (· != "")
@@ -103,45 +105,31 @@ def parseTree (s : String) : Option (Bool × Spec.VInfo) :=
   | [t, k, v, bs] => some (t == "1", ⟨unhexW k, unhexW v, (splitNE bs "|").map parseBlock⟩)
   | _ => none
 
-/-- no lone surrogates (so that `&str` keys and stored keys correspond one to one) -/
-def validUtf16 (k : List Nat) : Bool := (decode16 k).all fun | .ok _ => true | .bad _ => false
+def langPair (l : Language) : Nat × Nat := (l.langId, l.charsetId)
 
-def allDistinct {α} [DecidableEq α] : List α → Bool
-  | [] => true
-  | a :: l => !l.contains a && allDistinct l
-
-/-- side conditions under which the four string queries are determined by the abstract content alone:
-table keys are 8 hex digits naming pairwise distinct languages, keys are valid UTF-16 and pairwise
-distinct within a table -/
-def queriesDetermined (v : Spec.VInfo) : Bool :=
-  let tables := v.blocks.flatMap fun | .stringInfo ts => ts | .varInfo _ => []
-  tables.all (fun t => (Spec.langOfKey t.lang).isSome && t.strings.all (fun s => validUtf16 s.key)
-      && allDistinct (t.strings.map (·.key)))
-  && allDistinct (tables.map fun t => Spec.langOfKey t.lang)
-
-def specLang (l : List Nat) : Language :=
-  match Spec.langOfKey l with
-  | some (a, b) => ⟨a, b⟩
-  | none => ⟨0, 0⟩
-
+/-- the specification's answer: the definitions of Spec/Version.lean over the abstract content
+(`Spec.fixedInfoOf`, `translationsOf`, `stringsOf`, `valueOf`, `stringMapsOf`; Thm/C13Queries.lean
+proves that the model's queries answer exactly these on the written block) -/
 def specAnswer (v : Spec.VInfo) (q : List String) : String :=
   match q with
   | ["events"] => join (v.events.map sevS) ";"
-  | ["fixed"] => match v.fixed with | some f => hexW f | none => "none"
-  | ["translation"] => "[" ++ join (v.translations.map fun p => s!"{p.1}:{p.2}") ++ "]"
+  | ["fixed"] => match Spec.fixedInfoOf v with | some f => hexW f | none => "none"
+  | ["translation"] => "[" ++ join ((Spec.translationsOf v).map fun p => s!"{p.1}:{p.2}") ++ "]"
   | ["value", l, k] =>
-    let lang := parseLang l
-    let key := lossy (unhexW k)
-    match (v.strings.filter fun e => specLang e.1 = lang ∧ lossy e.2.1 = key).getLast? with
-    | some e => utf8 (lossy e.2.2)
+    match Spec.valueOf v (langPair (parseLang l)) (Spec.text (unhexW k)) with
+    | some s => utf8 s
     | none => "none"
-  | ["strings", l] =>
-    let lang := parseLang l
-    "[" ++ join ((v.strings.filter fun e => specLang e.1 = lang).map fun e => kvS (lossy e.2.1, lossy e.2.2)) ++ "]"
-  | ["file_info"] =>
-    let tables := v.blocks.flatMap fun | .stringInfo ts => ts | .varInfo _ => []
-    mapS (tables.map fun t => (specLang t.lang, t.strings.map fun s => (lossy s.key, lossy (Spec.stripTerminator s.stored))))
+  | ["strings", l] => "[" ++ join ((Spec.stringsOf v (langPair (parseLang l))).map kvS) ++ "]"
+  | ["file_info"] => mapS ((Spec.stringMapsOf v).map fun e => (⟨e.1.1, e.1.2⟩, e.2))
   | _ => "-"
+
+/-- the side conditions of the query's round-trip theorem (Thm/C13Queries.lean) -/
+def queryHyp (v : Spec.VInfo) (q : List String) : Bool :=
+  match q with
+  | "strings" :: _ => v.langKeysOk
+  | "value" :: _ => v.langKeysOk && v.keysValid
+  | ["file_info"] => v.langKeysOk && v.langsDistinct && v.keysDistinct
+  | _ => true
 
 def specPart (ws : List Nat) (tree : Option String) (q : List String) : String :=
   match tree with
@@ -150,12 +138,13 @@ def specPart (ws : List Nat) (tree : Option String) (q : List String) : String :
     match parseTree t with
     | none => " ## tree=bad"
     | some (tight, v) =>
+      -- enc: the block is exactly what the reference writer produces (tree=0/.. or tree=1/..)
       let enc := decide (v.encode tight = ws)
-      let hyp := v.wf && enc &&
-        (match q with
-         | "value" :: _ | "strings" :: _ | ["file_info"] => queriesDetermined v
-         | _ => true)
-      s!" ## enc={if enc then 1 else 0} hyp={if hyp then 1 else 0} wf={if v.wf then 1 else 0} fits={if v.fits tight then 1 else 0} spec={specAnswer v q}"
+      -- lay: the block is a documented layout of the tree under some per-structure choices
+      -- (Spec.VInfo.isBlockB, sound for Spec.VInfo.IsBlock; tree=L/.. comes from a writer that chooses at random)
+      let lay := v.isBlockB ws
+      let hyp := ((v.wf && enc) || lay) && queryHyp v q
+      s!" ## enc={if enc then 1 else 0} lay={if lay then 1 else 0} hyp={if hyp then 1 else 0} wf={if v.wf then 1 else 0} fits={if v.fits tight then 1 else 0} spec={specAnswer v q}"
 
 /-- a user visitor that records everything and declines the first `n` roots (`version_info` returns
 `false`): exercises the `continue` of the root loop -/
